@@ -154,6 +154,12 @@ func famColl(w *bufio.Writer, seed uint64, n, labels int, mode, replay string) e
 		if err != nil {
 			nerr++
 			fmt.Fprintf(os.Stderr, "case %d (seed %d): %v\n", i, cs, err)
+			if nerr >= 3 {
+				// the implementation no longer follows the gates (an actor that never arrives costs a
+				// full time-out per case): report what we have instead of waiting the run out
+				fmt.Fprintf(os.Stderr, "director: giving up after %d harness errors\n", nerr)
+				break
+			}
 		}
 	}
 	fmt.Fprintf(os.Stderr, "labels: %v harness-errors: %d\n", hist, nerr)
